@@ -72,6 +72,10 @@ structure Mon where
   /-- the versions the case's transport serves: `filterSupportedVersions` of the predicate named by the
   `tr` record (an INPUT of the case; a case without `tr` record runs on a transport that serves all) -/
   tv : List String := supportedProtocolVersions
+  /-- the `InitializedHandler` ran for an earlier `notifications/initialized` of the case: the monitor's own
+  evidence (from the invocation counter, the property's `observe_at`) that the notification was accepted
+  once, independent of the `InitializedParams` the implementation's session state claims -/
+  initdRan : Bool := false
 
 inductive Clause
   -- C02: one answer per call, none per notification
@@ -82,6 +86,7 @@ inductive Clause
   | f4Served | servedBeforeInit | f4Passed | stateBeforeInit | servedUnopened
   | secondInitAccepted | secondInitState | rejectedInitState | initializedAccepted | pingNotServed
   | incompleteMeta | f34NotRefused | f34SdkList | unsupportedVersion | removedMethod | discoverLegacy
+  | initializedTwice
   -- C02: the code mapping
   | f16 (want : W) | f17 (want : W) | codeWrong (want : W)
 deriving DecidableEq, Repr
@@ -92,7 +97,8 @@ deriving DecidableEq, Repr
 def Clause.pid : Clause → PID
   | .f4Served | .servedBeforeInit | .f4Passed | .stateBeforeInit | .servedUnopened
   | .secondInitAccepted | .secondInitState | .rejectedInitState | .initializedAccepted | .pingNotServed
-  | .incompleteMeta | .f34NotRefused | .f34SdkList | .unsupportedVersion | .removedMethod | .discoverLegacy => .C06
+  | .incompleteMeta | .f34NotRefused | .f34SdkList | .unsupportedVersion | .removedMethod | .discoverLegacy
+  | .initializedTwice => .C06
   | _ => .C02
 
 def removedNames : List String :=
@@ -196,7 +202,8 @@ def c06Rules (mon : Mon) (m : Msg) (o : MObs) : List (Bool × Clause) :=
       .unsupportedVersion),
     (new && metaComplete r && acceptedBy mon.tv m && removedNames.contains m.mname && (o.mw || (r.hasId && o.w != .err (-32601) none)),
       .removedMethod),
-    (m.mname == "server/discover" && !new && (o.mw || (r.hasId && o.w != .err (-32601) none)), .discoverLegacy) ]
+    (m.mname == "server/discover" && !new && (o.mw || (r.hasId && o.w != .err (-32601) none)), .discoverLegacy),
+    (m.mname == "notifications/initialized" && mon.initdRan && o.uh, .initializedTwice) ]
 
 def c06 (mon : Mon) (m : Msg) (o : MObs) : Option Clause :=
   if m.side != .server then none else firstRule (c06Rules mon m o)
@@ -227,7 +234,8 @@ def monNext (mon : Mon) (m : Msg) : Obs → Mon
   | .seen o =>
     let validMeta := m.new && metaComplete m.req && acceptedBy mon.tv m
     let accepted := m.side == .server && m.mname == "initialize" && o.w == .ok
-    { mon with prevSt := o.st, opened := mon.opened || validMeta || accepted }
+    let ran := m.side == .server && m.mname == "notifications/initialized" && o.uh
+    { mon with prevSt := o.st, opened := mon.opened || validMeta || accepted, initdRan := mon.initdRan || ran }
   | _ => { mon with dead := true }
 
 /-- A case: its transport's versions, then its envelopes with the observations. -/
